@@ -308,7 +308,7 @@ def stack_analysis(prog):
     return _CACHE[prog.digest]
 
 
-@rule("SH1", ["C16", "C06", "C18"], "global construction stacks balanced on every exit incl. user-code faults", engine="SAI+CG", floor=30)
+@rule("SH1", ["C16", "C06", "C18", "C07"], "global construction stacks balanced on every exit incl. user-code faults", engine="SAI+CG", floor=30)
 def sh1(prog, rr):
     an = stack_analysis(prog)
     rel = an.relevant
